@@ -13,7 +13,7 @@ def current_defects():
     def bit(name):
         m = re.search(name + r"\s*:=\s*(true|false)", txt)
         return "1" if m and m.group(1) == "true" else "0"
-    return bit("oobRebuildsDepsNotTarget") + bit("failedTargetAbortsRun")
+    return bit("oobRebuildsDepsNotTarget") + bit("failedTargetAbortsRun") + bit("oobRecordsDepsOnCaller")
 
 
 # ----------------------------------------------------------------------------- parsing snapshots
